@@ -26,8 +26,9 @@ func typeStr(t types.Type) string {
 }
 
 // codecs discovers the scalar codec pairs structurally:
-//   encoder: package-level func(T) []byte | ([]byte, error)
-//   decoder: package-level func(ByteRuneReader, int32) (T, error)
+//
+//	encoder: package-level func(T) []byte | ([]byte, error)
+//	decoder: package-level func(ByteRuneReader, int32) (T, error)
 func (w *World) codecs() map[string]*codec {
 	out := map[string]*codec{}
 	get := func(n string) *codec {
